@@ -49,7 +49,37 @@ def seeded_table():
         lines.append('| %s | %s | %s | %s | %s | %s |' % (m['id'], m['breaks_property'], ', '.join(m.get('files_changed', [])), need, caught, obl.replace('|', '/')))
     return '\n'.join(lines)
 s = open(V + '/DESIGN.md').read()
-for name, fn in (('units', units_table), ('seeded', seeded_table)):
+def summary_table():
+    us = units()
+    meta = json.load(open(V + '/propmeta.json'))
+    man = json.load(open(V + '/MANIFEST.json'))
+    claimed = set(c['property_id'] for c in man['checks'])
+    lines = ['| id | claimed? | what the contracts decide (claim) | quick / thorough units | levels | bounded (not counted) |', '|---|---|---|---|---|---|']
+    ids = [json.loads(l)['id'] for l in open(V + '/properties.jsonl')]
+    for p in ids:
+        mine = [u for u in us if p in u.get('props', []) and u.get('tier', 'quick') in ('quick', 'thorough')]
+        q = sum(1 for u in mine if u.get('tier', 'quick') == 'quick'); t = len(mine) - q
+        lv = sorted(set(str(u.get('level', '?')) for u in mine if not str(u.get('level', '')).startswith('B')))
+        bd = sum(1 for u in mine if str(u.get('level', '')).startswith('B'))
+        if p in claimed:
+            lines.append('| %s | partial | %s | %d / %d | %s | %d |' % (p, meta.get(p, {}).get('claim', '')[:400].replace('|', '/'), q, t, ', '.join(lv), bd))
+        else:
+            lines.append('| %s | **not applicable** | see §7 | 0 / 0 | — | 0 |' % p)
+    return '\n'.join(lines)
+def findings_table():
+    lines = ['| property | status | what failed (unit / obligation / native replay) | fix commit |', '|---|---|---|---|']
+    for l in open(V + '/known_findings.txt'):
+        l = l.strip()
+        m = re.match(r'fixed:\s+property=(\S+)\s+(\S+)\s+(.*)', l)
+        if m:
+            subj = subprocess.run(['git', '-C', '/repo', 'log', '--format=%s', '-1', m.group(2)], stdout=subprocess.PIPE, stderr=subprocess.DEVNULL).stdout.decode().strip()
+            lines.append('| %s | repaired | %s | `%s` %s |' % (m.group(1), m.group(3).replace('|', '/'), m.group(2), subj.replace('|', '/')))
+            continue
+        m = re.match(r'known:\s+property=(\S+)\s+unit=(\S+)\s+obligation=(\S+)\s+(.*)', l)
+        if m:
+            lines.append('| %s | **known finding (not repaired)** | unit `%s`, obligations `%s`: %s | — |' % (m.group(1), m.group(2), m.group(3).replace('|', ' / '), m.group(4).replace('|', '/')))
+    return '\n'.join(lines)
+for name, fn in (('units', units_table), ('seeded', seeded_table), ('summary', summary_table), ('findings', findings_table)):
     b, e = '<!-- BEGIN %s -->' % name, '<!-- END %s -->' % name
     if b in s and e in s:
         s = s[:s.index(b) + len(b)] + '\n' + fn() + '\n' + s[s.index(e):]
